@@ -8,6 +8,8 @@ NOTE="Trusted: the vrt shims (sync/atomic/chan/timer semantics), the source rewr
 claimed={
  "C20":("model_checking","Every interleaving (within the preemption bound) of 2-3 goroutines running Acquire/release/TemporarilyRelease scripts on the real concurrencylimiter is executed under the controlled scheduler; the number of counted holders is compared with the limit at every entry, deadlocks are detected, capacity is re-acquired at quiescence. Exhaustive within the bound: the right level for a lock-free CAS state machine whose bugs are 1-2 preemption windows.","§5 C20",MC),
  "C05":("model_checking","All interleavings (within the deviation bound) of 2-4 concurrent Invoke calls with virtual wait-interval / max-duration timers, shard functions, MaxSize, cancellation, a concurrency limiter on the context and explorer-chosen batch outcomes (ok/error/panic/short) on the real batch package; per execution every Many call and every Invoke return is checked against the property's clauses.","§5 C05",MC),
+ "C04":("model_checking","All interleavings (within the deviation bound) of writers (version bump + Strobe / Invalidate), 1-2 rerunners in every configuration (alwaysSpawnGoroutine, minRerunInterval, WriteThenReadDelay on the virtual clock), a stopper and failing computations on the real reactive package, over direct, cached, shared-child, conditional and InvalidateAfter dependency shapes. Oracle per execution: run-overlap counter, no compute entry after Stop returned, and at quiescence the versions read by the last completed run equal the current versions.","§5 C04",MC),
+ "C08":("model_checking","Same engine over trees of reactive.Cache sub-computations (1-2 children, shared child, two-level, conditional, PurgeCache inside a run, InvalidateAfter timers) with per-run resources carrying counting Cleanup callbacks. Oracle: versions embedded in the final output through cached children equal current versions at quiescence; cleanup count <=1 always, ==1 for superseded/stopped and ==0 for live resources, ==1 for all after Stop; InvalidateAfter timers are disarmed by cleanup (armed-deadline count at quiescence).","§5 C08",MC),
 }
 checks=[]
 for pid in sorted(claimed):
